@@ -38,7 +38,7 @@ Print Assumptions C20_no_panic.
    (GetPointLabels) without a panic. *)
 Theorem C20_accepted_is_safe : forall (data : bytes) (b : block),
   len data < block_limit -> ingest_block true data = Ok b ->
-  view_volume b = Ok tt /\ forall k o, o < SB3 -> view_point b k o = Ok tt.
+  view_volume b = Ok tt /\ view_calc b = Ok tt /\ forall k o, o < SB3 -> view_point b k o = Ok tt.
 Proof. exact ingest_block_safe. Qed.
 Print Assumptions C20_accepted_is_safe.
 
